@@ -343,7 +343,7 @@ def r8_2(ctx, R):
 
 def r8_3(ctx, R):
     ctx.rule("R8.3", "no by-value extraction: no MIR move/copy of an Occupied payload; no effectively-public function "
-                     "returns a bare type parameter, &mut P, Pin<&mut P> or an iterator over slot storage, except "
+                     "returns a bare type parameter, &mut P, Pin<&mut P> or an iterator over slot storage (a shared &P is harmless), except "
                      "try_push*/try_push_back/front: Result<(), P> (the refused argument)")
     occ, free = R.slot_variants
     n = 0
@@ -394,6 +394,9 @@ def r8_3(ctx, R):
                         walk(a, ctxs + (t["name"].split("::")[-1],))
         walk(f["output"])
         for name, c in hits:
+            refs = [x for x in c if x in ("&", "&mut")]
+            if refs and refs[-1] == "&":
+                continue      # behind a shared reference: can be looked at, never moved or polled
             allowed = re.search(r"::try_push(_back|_front)?$", p) and c == ("Result",) or \
                 (p.endswith("::default") or p.endswith("::from_iter")) and False
             ctx.ob("R8.3", p, "public-signature-returns-child:%s" % name, bool(allowed), "", "output %s via %s" % (f["output"], c))
